@@ -37,7 +37,10 @@ class C19(ProgramProperty):
             uris.append(b + rng.choice(WORDS))
         if rng.random() < 0.3:
             uris += [rng.choice(uris) for _ in range(2)]
-        delims = rng.choice([[], [], ["#", "/", "_"], ["_", "/", "#"], ["/"], ["/x/", "/"], [":", "/"]])
+        delims = rng.choice([[], [], ["#", "/", "_"], ["_", "/", "#"], ["/"], ["/x/", "/"], [":", "/"], ["?id=", "/"], ["%3A"], ["__", "_"]])
+        if any(len(d_) > 1 for d_ in delims) and rng.random() < 0.8:
+            uris += [rng.choice(["http://e.org/q?id=", "http://e.org/x%3A", "http://e.org/x__", "http://e.org/q?id=a?id="]) + rng.choice(WORDS)
+                     for _ in range(3)]
         cutoff = rng.choice([None, None, None, 0, 1, 2, 3, 4])
         meta = rng.choice(["ns", "ns", "p", "", "é"])
         with_conv = rng.random() < 0.3
@@ -45,13 +48,14 @@ class C19(ProgramProperty):
         src = None
         if with_conv:
             known = [rec("known", "http://known.example/", pat=rng.choice([None, "^\\d{7}$"])),
-                     rec("kx", "http://e.org/x/a_", pat=rng.choice([None, None, "^[A-Z]+$", "^\\d{7}$"]))]
+                     rec("kx", "http://e.org/x/a_", [], rng.choice([[], [], ["http://e.org/x#"], ["http://e.org/", "urn:x:"]]),
+                         pat=rng.choice([None, None, "^[A-Z]+$", "^\\d{7}$"]))]
             if rng.random() < 0.6:
                 # a URI prefix that runs past the delimiter into the identifier: it recognises only some
                 # of the URIs that share a split prefix
                 u0 = rng.choice(uris)
                 cut = u0[: max(1, len(u0) - rng.choice([0, 1, 1]))]
-                if cut not in ("http://known.example/", "http://e.org/x/a_"):
+                if cut not in gen.all_uris(known):
                     known.append(rec("partial", cut))
             steps += [init_step(0, known)]
             src = 0
